@@ -500,12 +500,63 @@ func verifSpell(spelled []byte, c byte, afterHex *bool, withTemplateEscapes bool
 	return spelled
 }
 
+// verifHeredocForm: the value written as a heredoc: every character of the body stands for
+// itself (backslashes and quotes included), the value is the body with its line ends.
+func verifHeredocForm() {
+	n := 1 + nondet_choice("value-len", verif_bound("heredoc-value-len", 2, 3))
+	var value []byte
+	for i := 0; i < n; i++ {
+		c := nondet_u8("byte")
+		if c != '\n' {
+			verif_assume(c >= 0x20)
+			verif_assume(c < 0x7f)
+		}
+		value = append(value, c)
+	}
+	for i := 0; i+1 < n; i++ {
+		if value[i] == '$' || value[i] == '%' {
+			verif_assume(value[i+1] != '{') // a template sequence would start here
+		}
+	}
+	src := append(append([]byte("K = <<EOTX\n"), value...), "\nEOTX\n"...)
+	f, diags := ParseConfig(src, "p", hcl.Pos{Byte: 0, Line: 1, Column: 1})
+	verifCheckDiags(diags, len(src))
+	verif_assert(!diags.HasErrors(), "a heredoc loads without an error")
+	if diags.HasErrors() {
+		return
+	}
+	a := f.Body.(*Body).Attributes["K"]
+	verif_assert(a != nil, "the attribute keeps its name")
+	if a == nil {
+		return
+	}
+	v, vd := a.Expr.Value(nil)
+	verif_assert(!vd.HasErrors(), "the heredoc evaluates without an error")
+	verif_assert(v.Type() == cty.String, "a heredoc is a string")
+	if v.Type() != cty.String {
+		return
+	}
+	got := v.AsString()
+	verif_assert(len(got) == n+1, "the heredoc value is its body plus the final line end")
+	if len(got) == n+1 {
+		for k := 0; k < n; k++ {
+			verif_assert(got[k] == value[k], "every character of a heredoc body stands for itself")
+		}
+		verif_assert(got[n] == '\n', "the heredoc value ends with the line end of its last line")
+	}
+	verif_witness()
+}
+
 // H_c14_profile_string: end to end through the real scanner, parser and template evaluation:
 // a profile line  K = "<spelling>"  (top level, or inside a labelled block whose label is
 // spelled the same way, or "${"/"%{" written with the escaped markers "$${"/"%%{") loads
 // without diagnostics and yields exactly the intended string.
 func H_c14_profile_string() {
-	form := nondet_choice("form", 4)
+	form := nondet_choice("form", 5)
+	if form == 4 {
+		verifHeredocForm()
+		return
+	}
 	n := nondet_choice("value-len", verif_bound("profile-value-len", 2, 3)+1)
 	var value, spelled []byte
 	afterHex := false
